@@ -224,8 +224,22 @@ func init() {
 		"fmt.Printf": func(e *Engine, st *State, args []Value) Value {
 			return TupleV{[]Value{e.ts.BV(0, 64), IfaceV{}}}
 		},
+		"errors.Join": func(e *Engine, st *State, args []Value) Value {
+			var flags []*Term
+			for _, x := range e.sliceElems(st, args[0].(SliceV)) {
+				iv := x.(IfaceV)
+				switch {
+				case iv.typ == nil:
+				case iv.typ == e.opaqueErrT:
+					flags = append(flags, iv.v.(*Term))
+				default:
+					flags = append(flags, e.ts.True)
+				}
+			}
+			return e.opaqueErr(e.ts.Or(flags...))
+		},
 		"errors.Is": func(e *Engine, st *State, args []Value) Value {
-			a, b := args[0].(IfaceV), args[1].(IfaceV)
+			a, b := e.concIface(st, args[0].(IfaceV)), e.concIface(st, args[1].(IfaceV))
 			if a.typ == nil || b.typ == nil {
 				return e.ts.Bool(a.typ == nil && b.typ == nil)
 			}
@@ -311,7 +325,7 @@ func (e *Engine) invokeSpecial(st *State, recv IfaceV, method string) (Value, bo
 }
 
 func modelOpaqueErr(e *Engine, st *State, args []Value) Value {
-	return IfaceV{typ: e.opaqueErrT, v: StructV{}}
+	return e.opaqueErr(e.ts.True)
 }
 
 func modelOpaqueStr(e *Engine, st *State, args []Value) Value {
